@@ -6,6 +6,7 @@ import (
 	"fmt"
 	"go/token"
 	"go/types"
+	"strings"
 
 	"golang.org/x/tools/go/ssa"
 )
@@ -15,10 +16,10 @@ func init() {
 		ID:    "C05",
 		Title: "Errors at any point are contained by protected calls and leave state intact",
 		Explanation: "Decided: R05-restore — in each recover() arm of PCall (the outer deferred closure and the inner one that protects the error handler) every path from the recovered-panic test to the closure's return restores the call-stack pointer to the value captured before the call, re-derives currentFrame, closes up-values at and reclaims registers down to the captured base (R03-close shared), and LState.Panic is restored from the captured old value on every path, success or failure; the captured values are single-assignment cells defined before the call; the handler call is not inside a loop (runs once) and precedes the restoration; " +
-			"R05-convert — no panic instruction is reachable inside PCall's recover arms, foreign panics are converted to ApiErrorPanic, threadRun re-panics only when there is no parent thread, the deferred recover is installed before the call, and DoString/DoFile/GPCall/protected CallByParam reach execution only through PCall; R05-raise — raiseError/Error reach the panic through LState.Panic after pushing the error object, and every Lua-level error entry (error, assert) goes through them; R08-panics (shared with C08) on the load path. " +
+			"R05-convert — no panic instruction is reachable inside PCall's recover arms, foreign panics are converted to ApiErrorPanic, threadRun re-panics only when there is no parent thread, the deferred recover is installed before the call, and DoString/DoFile/GPCall/protected CallByParam reach execution only through PCall; R05-raise — raiseError/Error reach the panic through LState.Panic after pushing the error object, and every Lua-level error entry (error, assert) goes through them; R05-handlerarm — inside PCall's recovery closure every call that can itself raise a Lua error (pushing the handler can overflow the registry, the handler can fail) runs after the inner recover has been deferred, so a second failure is still delivered to this protected call; R17-where shared — the position prefix is read at Pc-1 only when Pc > 0 (an error raised before a frame executed anything must not index -1 and escape as a Go panic). " +
 			"NOT decided: 'delivered exactly once', side-effect prefix, later behaviour — trace properties of executions.",
 		Trusted: []string{"a deferred closure runs on every exit of its function (Go semantics)"},
-		Rules:   []func(*Ctx){ruleRestore, ruleConvert, ruleRaise, ruleClose},
+		Rules:   []func(*Ctx){ruleRestore, ruleConvert, ruleRaise, ruleClose, ruleWhere, ruleHandlerArm},
 	})
 }
 
@@ -491,4 +492,71 @@ func ruleRaise(c *Ctx) {
 		}
 		c.check(len(callsTo(fn, p.Fn("lua", callee))) > 0, R, name+"→"+callee, p.pos(fn.Pos()), "raises through the state's error API", "does not raise through "+callee)
 	}
+}
+
+// ruleHandlerArm: the recovery closure of PCall is itself running in a deferred function; anything in it
+// that can raise a Lua error before the inner 'defer … recover()' is installed unwinds past this PCall
+// to the next enclosing one (F29: ls.Push(errfunc) with a full registry).
+func ruleHandlerArm(c *Ctx) {
+	const R = "R05-handlerarm"
+	c.floor(R, 3)
+	p := c.P
+	pcall := c.need(R, "lua", "(*LState).PCall")
+	if pcall == nil {
+		return
+	}
+	var outer *ssa.Function
+	for _, an := range pcall.AnonFuncs {
+		if len(recoverCalls(an)) > 0 {
+			outer = an
+		}
+	}
+	if outer == nil {
+		c.und(R, "PCall:recovery-closure", p.pos(pcall.Pos()), "no deferred closure with recover() found in PCall")
+		return
+	}
+	g := p.G(outer)
+	var inner ssa.Instruction
+	allInstrs(outer, func(in ssa.Instruction) {
+		if d, ok := in.(*ssa.Defer); ok {
+			if mc, ok := d.Call.Value.(*ssa.MakeClosure); ok {
+				if f, ok := mc.Fn.(*ssa.Function); ok && len(recoverCalls(f)) > 0 {
+					inner = in
+				}
+			} else if f, ok := d.Call.Value.(*ssa.Function); ok && len(recoverCalls(f)) > 0 {
+				inner = in
+			}
+		}
+	})
+	if inner == nil {
+		c.und(R, "PCall$1:inner-recover", p.pos(outer.Pos()), "the recovery closure defers no inner recover")
+		return
+	}
+	n := 0
+	allInstrs(outer, func(in ssa.Instruction) {
+		if _, isDefer := in.(*ssa.Defer); isDefer || !g.Live(in) {
+			return
+		}
+		may, via := p.siteMayRaise(in)
+		if !may {
+			return
+		}
+		// only the handler arm (errfunc != nil): the unwinding common to both arms only shrinks the
+		// registry and the frame stack
+		inArm := false
+		for _, cd := range g.CondsAtInstr(in) {
+			if b, ok := cd.V.(*ssa.BinOp); ok && b.Op == token.NEQ && cd.Sense {
+				if k, ok := b.Y.(*ssa.Const); ok && k.IsNil() && strings.Contains(vkey(b.X), "errfunc") {
+					inArm = true
+				}
+			}
+		}
+		if !inArm {
+			return
+		}
+		n++
+		c.Sites++
+		key := fmt.Sprintf("PCall$1:%s#%d", via, countKey(c, R, via))
+		c.check(g.Dominates(inner, in), R, key, p.ipos(in), "runs under the inner recover", fmt.Sprintf("PCall's recovery closure calls %s, which can raise a Lua error, before its inner recover is deferred: the second error unwinds past this protected call (xpcall with a full registry: the overflow raised by pushing the handler reaches the next enclosing pcall or DoString)", via))
+	})
 }
